@@ -238,6 +238,12 @@ def run(ctx):
     CMP_OPS = ("Equal", "NotEqual", "Less", "LessEq", "Greater", "GreaterEq", "DotEqual", "DotNotEqual", "DotLess", "DotLessEq", "DotGreater", "DotGreaterEq")
     c10_.binding_levels_rule(_Only(ctx, lambda k_: k_.startswith("op=") and k_[3:] in CMP_OPS or k_ == "build_pratt_parser#shape"), "C12.R9", core, c10_.precedence_rows(core))
 
+    # ---------------- R10 a comparison keeps its operator in emitted source
+    ctx.rule("C12.R10", "a function that compares keeps comparing the same way after it was emitted as source (output / to_string / formatter): each comparison operator is printed with the token the grammar reads for it - `.>=` printed as `>=` broadcasts over lists instead of ordering them", floor=12)
+    from rules import printers as P_
+    from lib.peg import Grammar as G_
+    P_.L1_tokens(_Only(ctx, lambda k_: any(k_.endswith("[%s]" % o) for o in CMP_OPS) or k_ == "binary-token-tables"), "C12.R10", core, G_(ctx.grammar))
+
     # ---------------- R8 no answer from heap identity
     from rules import c02 as c02_
     from lib import mir as M_
@@ -389,12 +395,132 @@ def list_compare_rule(ctx, rid, core):
     uses_equals = any(H.kind(x) == "MethodCall" and x["name"] == "equals" for x in H.walk(body))
     cmp_calls = [x for x in H.walk(body) if H.kind(x) == "MethodCall" and x["name"] == "compare"]
     v1 = True if exact else (False if uses_equals or not cmp_calls else None)
-    ctx.inst(rid, "compare#List#first-difference", v1, "loop over zip(left, right); Some(Equal) continues, anything else is returned: %s%s" % (exact, "; elements are passed over with equals()" if uses_equals else ""), H.loc(body))
+    flow_note = ""
+    if not exact and v1 is None:
+        # any other shape: what the loop body does for each of the four answers of the element comparison
+        outs = list_loop_outcomes(core, body)
+        if outs is not None:
+            some_ = lambda o: ("variant", "Ok", (("some", ("variant", o, ())),))
+            want_ = {"Less": ("ret", some_("Less")), "Greater": ("ret", some_("Greater")), None: ("ret", ("variant", "Ok", (("none",),)))}
+            wrong = [str(o) for o in ("Less", "Greater", None) if outs[o][0] != "unk" and outs[o] != want_[o]]
+            if outs["Equal"][0] == "ret":
+                wrong.append("Equal")
+            if wrong:
+                v1 = False
+                flow_note = "; element comparison answering %s is not handled as the first difference (an unordered pair must end the comparison without an answer, an ordered one with that answer, an equal one moves on)" % wrong
+            elif all(outs[o][0] != "unk" for o in outs) and outs["Equal"][0] in ("cont", "fall"):
+                v1 = True
+    ctx.inst(rid, "compare#List#first-difference", v1, "loop over zip(left, right); Some(Equal) continues, anything else is returned: %s%s%s" % (exact, "; elements are passed over with equals()" if uses_equals else "", flow_note), H.loc(body))
     fin = lv[2] if len(lv) == 3 else (lv[-1] if lv else None)
     want = ("value", ("call", "partial_cmp", ("call", "len", ll), ("call", "len", lr)))
     swapped = ("value", ("call", "partial_cmp", ("call", "len", lr), ("call", "len", ll)))
     okf = True if fin == want else (False if fin == swapped else None)
     ctx.inst(rid, "compare#List#length-tie-break", okf, "final value %s" % (S.show(fin[1]) if fin and len(fin) > 1 else None), H.loc(body))
+
+
+def list_loop_outcomes(core, arm_body):
+    """{answer of the element comparison: what the element loop does} for the (List, List) arm of compare; answers are Less / Equal /
+    Greater / None (unordered); outcomes ('ret', term) / ('cont',) / ('fall',) / ('unk', why). None when the loop is not found."""
+    import copy
+    from lib import pe as PE_
+    loops = [x for x in H.walk(arm_body) if H.kind(x) == "For" and any(H.kind(y) == "MethodCall" and y["name"] == "compare" for y in H.walk(x["body"]))]
+    if len(loops) != 1:
+        return None
+    body = copy.deepcopy(loops[0]["body"])
+    n_rep = [0]
+
+    def repl(x):
+        if isinstance(x, dict):
+            if x.get("k") == "Try" and H.kind(H.strip(x["e"])) == "MethodCall" and H.strip(x["e"])["name"] == "compare":
+                n_rep[0] += 1
+                return {"k": "Path", "res": {"local": "__cmp"}, "ty": "", "sp": x.get("sp")}
+            return {k_: repl(v_) for k_, v_ in x.items()}
+        if isinstance(x, list):
+            return [repl(v_) for v_ in x]
+        return x
+    body = repl(body)
+    if n_rep[0] != 1:
+        return None
+    ev = PE_.PE(core, "blots_core::values::Value::")
+
+    def conj(c):
+        c = H.strip(c)
+        if H.kind(c) == "Binary" and c.get("op") == "And":
+            return conj(c["l"]) + conj(c["r"])
+        return [c]
+
+    def has_flow(x):
+        return any(H.kind(y) in ("Ret", "Continue", "Break") for y in H.walk(x))
+
+    def flow(n, env):
+        n = H.strip(n)
+        k = H.kind(n)
+        if k == "Ret":
+            return ("ret", ev.ev(n.get("e"), env)) if n.get("e") is not None else ("unk", "bare return")
+        if k == "Continue":
+            return ("cont",)
+        if k == "Break":
+            return ("break",)
+        if k == "Block":
+            e2 = dict(env)
+            for s_ in n["stmts"]:
+                if s_["k"] == "Let":
+                    if s_.get("init") is not None:
+                        if has_flow(s_["init"]) or s_.get("els") is not None:
+                            return ("unk", "control flow in a let")
+                        if ev.bind(s_["pat"], ev.ev(s_["init"], e2), e2) is not True:
+                            for bn in H.pat_binds(s_["pat"]):
+                                e2[bn] = PE_.unk("let pattern")
+                elif s_["k"] in ("Expr", "Semi"):
+                    r = flow(s_["e"], e2)
+                    if r[0] != "fall":
+                        return r
+                else:
+                    return ("unk", "statement")
+            return flow(n["expr"], e2) if n.get("expr") is not None else ("fall",)
+        if k == "If":
+            e2 = dict(env)
+            verdict = True
+            for c in conj(n["cond"]):
+                if H.kind(c) == "LetExpr":
+                    r = ev.bind(c["pat"], ev.ev(c["init"], e2), e2)
+                else:
+                    t = ev.ev(c, e2)
+                    r = True if t == ("bool", True) else (False if t == ("bool", False) else None)
+                if r is False:
+                    verdict = False
+                    break
+                if r is None:
+                    return ("unk", "condition not decided")
+            if verdict:
+                return flow(n["then"], e2)
+            return flow(n["else"], env) if n.get("else") is not None else ("fall",)
+        if k == "Match":
+            v = ev.ev(n["scrut"], env)
+            for a in n["arms"]:
+                e2 = dict(env)
+                r = ev.bind(a["pat"], v, e2)
+                if r is False:
+                    continue
+                if r is None:
+                    return ("unk", "match on unknown")
+                if a.get("guard") is not None:
+                    g = ev.ev(a["guard"], e2)
+                    if g == ("bool", False):
+                        continue
+                    if g != ("bool", True):
+                        return ("unk", "guard not decided")
+                return flow(a["body"], e2)
+            return ("unk", "no arm")
+        if has_flow(n):
+            return ("unk", "control flow inside %s" % k)
+        return ("fall",)
+
+    out = {}
+    for o in ("Less", "Equal", "Greater", None):
+        val = ("some", ("variant", o, ())) if o else ("none",)
+        out[o] = flow(body, {"__cmp": val})
+    return out
 
 
 def pe_unchecked(core, arm, variant, argsname):
